@@ -6,4 +6,7 @@ import (
 	"verifharness/props/c10"
 )
 
-func main() { hk.Main("C10", c10.Run, c10.NewExec) }
+func main() {
+	defer c10.Cleanup()
+	hk.Main("C10", c10.Run, c10.NewExec)
+}
